@@ -132,6 +132,11 @@ def granted(rows_set, path, method):
 
 
 def run(ck, fb):
+    _run0(ck, fb)
+    r17f(ck, fb)
+
+
+def _run0(ck, fb):
     ck.explanation = (
         'Exhaustive cross product of the console route table (extracted from console_config), the permission tables (modules -> groups '
         '-> roles, extracted from the lazy_static literals and UserRole::get_resources) and the three roles: (a) CheckLogin pass logic as a '
@@ -348,3 +353,38 @@ def r17cd(ck, fb, rows):
             uses_session = bool(m.calls(r'HttpMessage::extensions$|extensions$')) or 'username' in util.read_fields(m)
             agg = [(i, j, s) for x in [m] for (i, j, s) in x.aggregates(r'UserManagerReq$', 'UpdateUser')]
             ck.require(uses_session, 'R17d', 'reset_password:own-account:%s' % h.split('::')[-3], m.where(), 'reset_password does not take the account from the session')
+
+
+def r17f(ck, fb):
+    ck.rule('R17f', 'a change of a user reaches that user\'s sessions: the actor the console reads sessions from (the send in '
+                    'login_middle::get_user_session) is an actor that UserManager notifies when a user is updated or removed (the target of its '
+                    'CacheUserChangeReq sends), or that handles CacheUserChangeReq. Otherwise a session keeps the roles and the namespace privilege it '
+                    'was created with: a demoted, disabled or removed user goes on using the routes of the old role until the session times out')
+    readers = set()
+    for n, b in fb.bodies.items():
+        if 'console::middle::login_middle::get_user_session' in n:
+            ck.analysed(b)
+            for s0 in b.sites:
+                if s0.callee and re.search(r'Addr::<A>::send$', s0.callee) and s0.gargs:
+                    readers.add(s0.gargs[0])
+    notified = set()
+    n_sites = 0
+    for n, b in fb.bodies.items():
+        if n.startswith('rnacos::user::') or n.startswith('<rnacos::user::'):
+            for (s0, m, v, a) in util.sends(b, r'CacheUserChangeReq$'):
+                n_sites += 1
+                if s0.gargs:
+                    notified.add(s0.gargs[0])
+    handlers = set()
+    for n in fb.bodies:
+        m = re.match(r'^<(rnacos::[\w:]+) as actix::Handler<rnacos::raft::cache::CacheUserChangeReq>>::handle$', n)
+        if m:
+            handlers.add(m.group(1))
+    if not ck.require(bool(readers), 'R17f', 'anchor:session-read', '-', 'the session read in login_middle::get_user_session was not found'):
+        return
+    ck.floor('R17f', 'user-change notifications sent by UserManager', n_sites, 2)
+    ok = bool(readers & (notified | handlers))
+    ck.require(ok, 'R17f', 'session-store-vs-user-change', '-',
+               'sessions are read from %s, user changes are announced to %s (handled by %s): the two never meet, so a session keeps its roles and '
+               'namespace privilege after the user was demoted, restricted or removed' % (sorted(readers), sorted(notified), sorted(handlers)),
+               'session store is told about user changes')
